@@ -83,6 +83,12 @@ def op_variant(m, sg, op):
         t = ins[1]
         if t.type == TT.INT4 and t.shape is not None and len(t.shape) and int(t.shape[-1]) % 2 == 1:
             var.append("int4-odd-row")
+    if name == "BATCH_MATMUL" and len(ins) > 1 and ins[0] is not None and m.buffers[ins[0].buffer].data is not None \
+            and ins[0].type in (TT.INT8, TT.INT4, TT.INT16):
+        # finding D42: a constant LEFT operand stored as an integer tensor (quantized with the weight config) and read directly by the
+        # operator (under weight-only the operator reads the DEQUANTIZE result, a float tensor, and this does not apply)
+        qz0 = ins[0].quantization
+        var.append("const-lhs-perchannel" if qz0 is not None and qz0.scale is not None and len(qz0.scale) > 1 else "const-lhs")
     if name == "BATCH_MATMUL" and len(ins) > 1 and ins[1] is not None:
         t = ins[1]
         qz = t.quantization
@@ -340,7 +346,10 @@ def compare_float_modes(ctx, interp, case, res, fail):
                     mag = max(mag, amag.get((sig, k), 0.0))
                 if drq:
                     # dynamic 8-bit activation quantization: generous end-to-end bound (a few percent of the magnitude per op)
-                    tol = 0.08 * mag * max(1, len(case.info["subgraphs"][0]["ops"])) + 1e-3
+                    # (the operator count of the subgraph THIS signature runs; alias signatures share their subgraph's entry)
+                    n_ops = next((len(sg_["ops"]) for sg_ in case.info["subgraphs"] if sg_.get("sig") == sig),
+                                 max(len(sg_["ops"]) for sg_ in case.info["subgraphs"]))
+                    tol = 0.08 * mag * max(1, n_ops) + 1e-3
                 else:
                     tol = 2e-4 * mag + 1e-5
                 if ya.shape != yb.shape or np.max(np.abs(ya - yb)) > tol:
@@ -405,11 +414,16 @@ def compare_static(ctx, interp, case, res, fail, max_ops=4):
     lut_floor = 0.0
     for sg_ in mo.subgraphs:
         for op_ in sg_.operators:
-            if pl.BO_NAME.get(mo.operatorCodes[op_.opcodeIndex].builtinCode) in ("GELU", "TANH", "LOGISTIC") and len(op_.inputs) and len(op_.outputs):
+            name_ = pl.BO_NAME.get(mo.operatorCodes[op_.opcodeIndex].builtinCode)
+            if name_ in ("GELU", "TANH", "LOGISTIC", "RSQRT") and len(op_.inputs) and len(op_.outputs):
                 ti_, to_ = sg_.tensors[op_.inputs[0]], sg_.tensors[op_.outputs[0]]
                 qi_, qo_ = pl.quant_tuple(ti_), pl.quant_tuple(to_)
                 if ti_.type == TT.INT16 and qi_ and qo_:
-                    lut_floor += min(32767 * float.fromhex(qo_["scale"][0]), 128 * float.fromhex(qi_["scale"][0]))
+                    out_max = 32767 * float.fromhex(qo_["scale"][0])
+                    # slope of the function over the cell next to the clipped entry: <= 1 for gelu / tanh / logistic; rsqrt is steepest
+                    # at the smallest operand x_min = out_max^-2 (the calibrated output maximum IS rsqrt(x_min)): |f'| = out_max^3 / 2
+                    slope = 0.5 * out_max ** 3 if name_ == "RSQRT" else 1.0
+                    lut_floor += min(out_max, slope * 128 * float.fromhex(qi_["scale"][0]))
     for sig in a[1]:
         sd = [x for x in (mo.signatureDefs or []) if x.signatureKey.decode() == sig]
         for oi, (ra, rb) in enumerate(zip(a[1][sig], b[1][sig])):
